@@ -16,7 +16,10 @@ Section PosetExt.
   | XB (o : op E)                       (* a call of the base vocabulary *)
   | XTrace (e : E) (mv_up : bool)       (* trace_element(e, 'up' / 'down'); e need not be an element *)
   | XDict (cover_rel : bool) (up : bool) (* parents_dict / children_dict (cover_rel) or ancestors_dict / descendants_dict *)
-  | XSup (up : bool) (l : list nat).    (* supremum / infimum *)
+  | XSup (up : bool) (l : list nat)     (* supremum / infimum *)
+  | XEq2 (other : list E) (oc : bool) (leq2 : E -> E -> bool) (rev : bool).
+      (* self == POSet(other, leq2, use_cache=oc)  (rev = false), or that poset == self (rev = true):
+         __eq__ does not compare the comparison functions, it compares the down-sets *)
 
   Inductive xout :=
   | XO (o : out E)
@@ -34,6 +37,28 @@ Section PosetExt.
         (s2, norm r :: rest)
     end.
 
+  (* POSet.__eq__ with the left poset ordered by [la] and the right one by [lb] *)
+  Fixpoint eq_loop2 (la lb : E -> E -> bool) (is : list nat) (s1 s2 : state) : state * state * bool :=
+    match is with
+    | [] => (s1, s2, true)
+    | i :: is' =>
+        match nth_error (els s1) i with
+        | None => (s1, s2, true)
+        | Some e =>
+            match index_of E eqb e (els s2) with
+            | None => (s1, s2, false)
+            | Some i2 =>
+                let '(s1', d1) := closed E la false s1 i in
+                let '(s2', d2) := closed E lb false s2 i2 in
+                if same_setb d1 (map_back E eqb (els s1) (els s2) d2) then eq_loop2 la lb is' s1' s2'
+                else (s1', s2', false)
+            end
+        end
+    end.
+
+  Definition poset_eq2 (la lb : E -> E -> bool) (s1 s2 : state) : state * state * bool :=
+    if set_eqE E eqb (els s1) (els s2) then eq_loop2 la lb (seq 0 (size E s1)) s1 s2 else (s1, s2, false).
+
   Definition xstep (s : state) (o : xop) : state * xout :=
     match o with
     | XB o => let '(s', r) := step E leq eqb s o in (s', XO r)
@@ -44,6 +69,9 @@ Section PosetExt.
         let '(s', l) := collect (if cv then cover E leq up else closed E leq up) s (seq 0 (size E s)) in
         (s', XMap l)
     | XSup up l => let '(s', r) := bound_q E leq up s l in (s', XO r)
+    | XEq2 other oc leq2 rev =>
+        if rev then let '(_, s', b) := poset_eq2 leq2 leq (init E other oc) s in (s', XO (OBool b))
+        else let '(s', _, b) := poset_eq2 leq leq2 s (init E other oc) in (s', XO (OBool b))
     end.
 
   Fixpoint xrun (s : state) (ops : list xop) : state * list xout :=
@@ -67,12 +95,19 @@ Section PosetExt.
     let D := filter (cmp_elem l mv e) (idxs E l) in
     (filter (fun x => negb (existsb (fun y => ldir E leq l mv x y && negb (Nat.eqb y x)) D)) D, D).
 
+  (* two posets are equal iff they have the same elements and order them the same way *)
+  Definition spec_eq2 (la lb : E -> E -> bool) (l1 l2 : list E) : bool :=
+    spec_eq E eqb l1 l2 &&
+    forallb (fun x => forallb (fun y => eqb y x || Bool.eqb (la y x) (lb y x)) l1) l1.
+
   Definition xspec_step (l : list E) (uc : bool) (o : xop) : list E * xout :=
     match o with
     | XB o => let '(l', r) := spec_step E leq eqb l uc o in (l', XO r)
     | XTrace e mv => let '(fin, tr) := trace_spec l mv e in (l, XTwo fin tr)
     | XDict cv up => (l, XMap (map (if cv then covers E leq l up else strict_rel E leq l up) (idxs E l)))
     | XSup up l0 => (l, XO (spec_query E leq eqb l uc (QBound up l0)))
+    | XEq2 other _ leq2 rev =>
+        (l, XO (OBool (if rev then spec_eq2 leq2 leq other l else spec_eq2 leq leq2 l other)))
     end.
 
   Fixpoint xspec_run (l : list E) (uc : bool) (ops : list xop) : list E * list xout :=
@@ -110,5 +145,5 @@ Section PosetExt.
     cache_same cch (c_ch s) && cache_same cpar (c_par s).
 End PosetExt.
 
-Arguments XB {E}. Arguments XTrace {E}. Arguments XDict {E}. Arguments XSup {E}.
+Arguments XB {E}. Arguments XTrace {E}. Arguments XDict {E}. Arguments XSup {E}. Arguments XEq2 {E}.
 Arguments XO {E}. Arguments XTwo {E}. Arguments XMap {E}.
